@@ -102,9 +102,44 @@ def _and_operands(test: ast.expr) -> list[ast.expr]:
     return [test]
 
 
+def _resolver(tree: ast.Module, cls: str | None):
+    """callee text -> FunctionDef for helpers defined in the same module: `self.m` / `cls.m` / `<Class>.m` for a method of
+    the class `cls` (defined once, at most @staticmethod/@classmethod), a bare name for a module-level function.  A call of
+    such a helper is not an unknown callee: its body is censused like the caller's (transitively)."""
+    methods: dict[str, ast.FunctionDef] = {}
+    funcs: dict[str, ast.FunctionDef] = {}
+    dup: set[str] = set()
+    for n in tree.body:
+        if isinstance(n, ast.FunctionDef):
+            if n.name in funcs:
+                dup.add(n.name)
+            funcs[n.name] = n
+        if isinstance(n, ast.ClassDef) and n.name == cls:
+            for m in n.body:
+                if isinstance(m, ast.FunctionDef):
+                    if m.name in methods:
+                        dup.add('.' + m.name)
+                    methods[m.name] = m
+
+    def plain(f: ast.FunctionDef) -> bool:
+        return all(isinstance(d, ast.Name) and d.id in ('staticmethod', 'classmethod') for d in f.decorator_list)
+
+    def resolve(callee: str) -> ast.FunctionDef | None:
+        head, _, name = callee.rpartition('.')
+        if head in ('self', 'cls', cls) and name in methods and '.' + name not in dup and plain(methods[name]):
+            return methods[name]
+        if head == '' and name in funcs and name not in dup and not funcs[name].decorator_list:
+            return funcs[name]
+        return None
+    return resolve
+
+
 class _Census:
-    def __init__(self, func: ast.FunctionDef, callees_ok: set[str], methods_ok: set[str]) -> None:
+    def __init__(self, func: ast.FunctionDef, callees_ok: set[str], methods_ok: set[str], resolve=None, stack: tuple[str, ...] = ()) -> None:
         self.func = func
+        self.resolve = resolve
+        self.stack = stack + (func.name,)
+        self.helpers: list[ast.FunctionDef] = []
         self.par = _parents(func)
         self.callees_ok, self.methods_ok = callees_ok, methods_ok
         # names whose truthiness is "non-empty": annotated str / list[...] (arguments and annotated assignments)
@@ -186,6 +221,17 @@ class _Census:
                     self.sites.append(dict(kind='conv', line=n.lineno, base=callee, index='', node=n, guard=self.guard(n, 'conv', None)))
                 elif callee in self.callees_ok or (isinstance(n.func, ast.Attribute) and n.func.attr in self.methods_ok):
                     pass
+                elif self.resolve is not None and self.resolve(callee) is not None and self.resolve(callee).name not in self.stack:
+                    # a helper of the same class / module: census its body too; a site that is unguarded inside the helper is
+                    # guarded if the call itself sits in a try block that catches that kind of exception
+                    h = self.resolve(callee)
+                    sub = _Census(h, self.callees_ok, self.methods_ok, self.resolve, self.stack)
+                    for st in sub.run():
+                        if st['guard'] == 'none' and self.guard(n, st['kind'], None) == 'try':
+                            st['guard'] = 'try'
+                        st['via'] = callee + ('>' + st['via'] if 'via' in st else '')
+                        self.sites.append(st)
+                    self.helpers += [h] + sub.helpers
                 else:
                     self.sites.append(dict(kind='call', line=n.lineno, base=callee, index='', node=n, guard=self.guard(n, 'call', None)))
         return self.sites
@@ -267,6 +313,154 @@ def _error_calls(tree: ast.AST, fname: str) -> list[tuple[str, int, int, int]]:
     return out
 
 
+def _error_type_installed(parse: ast.FunctionDef) -> tuple[bool, list[str]]:
+    """Does the tokenizer that `Keyvalues.parse` iterates over have `error_type = KeyValError` on EVERY path to the loop?
+    (The parser model calls every tokenizer error and every `tokenizer.error(...)` a KeyValError.)  Abstract execution of the
+    statements before the first `for ... in <tokenizer>` loop with the state "installed on all paths so far": `<tok> =
+    Tokenizer(..., KeyValError, ...)` (third positional argument or `error=`) installs it, `<tok> = <other>` loses it,
+    `<tok or alias>.error_type = KeyValError` installs it, any other value loses it, `if` joins its two branches with `and`.
+    Second component: a trace for the evidence file."""
+    loop = next((n for n in parse.body if isinstance(n, (ast.For, ast.While))), None)
+    if loop is None:
+        raise TranslateError('Keyvalues.parse: no top-level token loop')
+    # the tokenizer variable: what the `for` loop iterates over, else the name a `Tokenizer(...)` call is assigned to before the loop
+    tok = loop.iter.id if isinstance(loop, ast.For) and isinstance(loop.iter, ast.Name) else None
+    if tok is None:
+        for st in parse.body:
+            if st is loop:
+                break
+            for x in ast.walk(st):
+                if isinstance(x, ast.Assign) and len(x.targets) == 1 and isinstance(x.targets[0], ast.Name) and isinstance(x.value, ast.Call) \
+                        and isinstance(x.value.func, ast.Name) and x.value.func.id == 'Tokenizer':
+                    tok = x.targets[0].id
+    if tok is None:
+        raise TranslateError('Keyvalues.parse: cannot tell which variable holds the tokenizer')
+    trace: list[str] = []
+
+    def is_kve(n: ast.expr) -> bool:
+        return isinstance(n, ast.Name) and n.id == 'KeyValError'
+
+    # state: (names whose object has error_type = KeyValError on all paths so far, alias groups name -> names of the same object)
+    def run(stmts: list[ast.stmt], inst: set[str], same: dict[str, set[str]]) -> tuple[set[str], dict[str, set[str]]]:
+        inst, same = set(inst), {k: set(v) for k, v in same.items()}
+        for s in stmts:
+            if s is loop:
+                break
+            if isinstance(s, (ast.Assign, ast.AnnAssign)) and getattr(s, 'value', None) is not None:
+                tgs = s.targets if isinstance(s, ast.Assign) else [s.target]
+                v = s.value
+                for tg in tgs:
+                    if isinstance(tg, ast.Name):
+                        for g in same.values():
+                            g.discard(tg.id)
+                        inst.discard(tg.id)
+                        same[tg.id] = {tg.id}
+                        if isinstance(v, ast.Call) and isinstance(v.func, ast.Name) and v.func.id == 'Tokenizer':
+                            err = v.args[2] if len(v.args) >= 3 else next((k.value for k in v.keywords if k.arg == 'error'), None)
+                            if err is not None and is_kve(err) and not any(isinstance(x, ast.Starred) for x in v.args) \
+                                    and not any(k.arg is None for k in v.keywords):
+                                inst.add(tg.id)
+                        elif isinstance(v, ast.Name):
+                            grp = same.setdefault(v.id, {v.id})
+                            grp.add(tg.id)
+                            same[tg.id] = grp
+                            if v.id in inst:
+                                inst.add(tg.id)
+                        if tg.id == tok:
+                            trace.append(f'line {s.lineno}: {tok} = {ast.unparse(v)[:60]} -> {"installed" if tok in inst else "not installed"}')
+                    elif isinstance(tg, ast.Attribute) and tg.attr == 'error_type' and isinstance(tg.value, ast.Name):
+                        grp = same.setdefault(tg.value.id, {tg.value.id})
+                        if is_kve(v):
+                            inst |= grp
+                        else:
+                            inst -= grp
+                        trace.append(f'line {s.lineno}: {ast.unparse(tg)} = {ast.unparse(v)[:40]}')
+            elif isinstance(s, ast.If):
+                (i1, s1), (i2, s2) = run(s.body, inst, same), run(s.orelse, inst, same)
+                inst = i1 & i2
+                same = {k: s1.get(k, {k}) & s2.get(k, {k}) for k in set(s1) | set(s2)}
+            elif isinstance(s, (ast.With, ast.Try, ast.While, ast.For, ast.Delete)):
+                if any(isinstance(x, ast.Name) and isinstance(x.ctx, (ast.Store, ast.Del)) and (x.id == tok or x.id in inst) for x in ast.walk(s)) \
+                        or any(isinstance(x, ast.Attribute) and x.attr == 'error_type' and isinstance(x.ctx, (ast.Store, ast.Del)) for x in ast.walk(s)):
+                    raise TranslateError(f'keyvalues.py:{s.lineno}: the tokenizer / its error_type is assigned inside a compound statement the census does not follow')
+        return inst, same
+
+    inst, _ = run(parse.body, set(), {})
+    ok = tok in inst
+    trace.append(f'at the loop (line {loop.lineno}): ' + ('installed on every path' if ok else 'NOT installed on every path'))
+    return ok, trace
+
+
+CHUNK_STATE = ('_char_index', '_cur_chunk', '_chunk_iter')
+
+
+def _strip_doc_stmts(body: list[ast.stmt]) -> list[ast.stmt]:
+    if body and isinstance(body[0], ast.Expr) and isinstance(body[0].value, ast.Constant) and isinstance(body[0].value.value, str):
+        return list(body[1:])
+    return list(body)
+
+
+def _reader_discipline(ttree: ast.Module) -> tuple[list[int], list[int], list[int], list[str]]:
+    """The premise of the chunk-independence theorem (Text/Prog.v: a reader program sees the input only through reads and a
+    push-back directly after a read): outside `__init__` and `_next_char`, the methods of `Tokenizer` must not touch the
+    chunk state (`_cur_chunk`, `_char_index`, `_chunk_iter`) except by the statement `self._char_index -= 1`, and between two
+    such push-backs (in source order, inside one function) there must be a call of `self._next_char()`.
+    Returns (lines of foreign accesses, lines of the push-backs, lines of push-backs not preceded by a read, functions seen)."""
+    cls = next((n for n in ttree.body if isinstance(n, ast.ClassDef) and n.name == 'Tokenizer'), None)
+    if cls is None:
+        raise TranslateError('class Tokenizer not found')
+    foreign: list[int] = []
+    pushes: list[int] = []
+    unread: list[int] = []
+    funcs: list[str] = []
+
+    def is_push(n: ast.AST) -> bool:
+        return isinstance(n, ast.AugAssign) and isinstance(n.op, ast.Sub) and ast.unparse(n.target) == 'self._char_index' \
+            and isinstance(n.value, ast.Constant) and type(n.value.value) is int and n.value.value == 1
+
+    # one-statement helpers extracted from these functions: `def _unread(self): self._char_index -= 1` counts as a push-back at its
+    # call sites, `def _peek(self): return self._next_char()` as a read
+    helper_kind: dict[str, str] = {}
+    for f in cls.body:
+        if isinstance(f, ast.FunctionDef) and f.name not in ('__init__', '_next_char') and len(f.args.args) == 1 and not f.decorator_list:
+            body = _strip_doc_stmts(f.body)
+            if len(body) == 1 and is_push(body[0]):
+                helper_kind[f.name] = 'push'
+            elif len(body) == 1 and isinstance(body[0], ast.Return) and body[0].value is not None and ast.unparse(body[0].value) == 'self._next_char()':
+                helper_kind[f.name] = 'read'
+    for f in cls.body:
+        if not isinstance(f, (ast.FunctionDef, ast.AsyncFunctionDef)) or f.name in ('__init__', '_next_char'):
+            continue
+        funcs.append(f.name)
+        if helper_kind.get(f.name) == 'push':
+            pushes.append(f.lineno)
+            continue
+        ok_nodes: set[int] = set()
+        events: list[tuple[int, int, str]] = []           # (line, column, 'read' | 'push')
+        for n in ast.walk(f):
+            if isinstance(n, ast.AugAssign) and isinstance(n.op, ast.Sub) and ast.unparse(n.target) == 'self._char_index' \
+                    and isinstance(n.value, ast.Constant) and type(n.value.value) is int and n.value.value == 1:
+                ok_nodes.add(id(n.target))
+                events.append((n.lineno, n.col_offset, 'push'))
+                pushes.append(n.lineno)
+            elif isinstance(n, ast.Call) and ast.unparse(n.func) == 'self._next_char':
+                events.append((n.lineno, n.col_offset, 'read'))
+            elif isinstance(n, ast.Call) and isinstance(n.func, ast.Attribute) and isinstance(n.func.value, ast.Name) and n.func.value.id == 'self' \
+                    and n.func.attr in helper_kind and not n.args and not n.keywords:
+                events.append((n.lineno, n.col_offset, helper_kind[n.func.attr]))
+        for n in ast.walk(f):
+            if isinstance(n, ast.Attribute) and n.attr in CHUNK_STATE and id(n) not in ok_nodes:
+                foreign.append(n.lineno)
+            elif isinstance(n, ast.Constant) and isinstance(n.value, str) and n.value in CHUNK_STATE:
+                foreign.append(n.lineno)                  # getattr(self, '_cur_chunk') and the like
+        last = 'push'                                     # a push-back before any read of the function is not preceded by a read
+        for _ln, _col, ev in sorted(events):
+            if ev == 'push' and last == 'push':
+                unread.append(_ln)
+            last = ev
+    return sorted(foreign), sorted(pushes), sorted(unread), funcs
+
+
 def _coq_str(s: str) -> str:
     return '[' + '; '.join(str(ord(c)) for c in s) + ']%N'
 
@@ -284,8 +478,11 @@ def translate() -> tuple[str, dict]:
         raise TranslateError('_read_flag: unrecognised signature')
     fv = rflag.args.args[1].arg
 
-    sites_p = _Census(parse, PARSE_CALLEES_OK, PARSE_METHODS_OK).run()
-    sites_f = _Census(rflag, FLAG_CALLEES_OK, FLAG_METHODS_OK).run()
+    kv_resolve = _resolver(tree, 'Keyvalues')
+    census_p = _Census(parse, PARSE_CALLEES_OK, PARSE_METHODS_OK, kv_resolve)
+    sites_p = census_p.run()
+    census_f = _Census(rflag, FLAG_CALLEES_OK, FLAG_METHODS_OK, kv_resolve)
+    sites_f = census_f.run()
     par_p = _parents(parse)
 
     cfg = dict(bang_total=True, guard_replace_block=True, guard_replace_leaf=True, guard_single_root=True, close_guarded=True)
@@ -385,18 +582,35 @@ def translate() -> tuple[str, dict]:
     tok_sites: list[dict] = []
     tok_bad_raises: list[int] = []
     tok_raises = tok_design = 0
+    tok_resolve = _resolver(ttree, 'Tokenizer')
+    tok_helpers: dict[str, ast.FunctionDef] = {}
     for fn in TOK_FUNCS:
         f = _find_func(ttree, fn, 'Tokenizer')
-        for st in _Census(f, TOK_CALLEES_OK, TOK_METHODS_OK).run():
+        cen = _Census(f, TOK_CALLEES_OK, TOK_METHODS_OK, tok_resolve)
+        for st in cen.run():
             st['func'] = fn
             tok_sites.append(st)
+        for h in cen.helpers:
+            if h.name not in TOK_FUNCS:
+                tok_helpers[h.name] = h
         # non-str chunks raise ValueError by design (outside the property: the text must be str)
         g, d, bad = _raise_census(f, {'self.error'}, {'ValueError'} if fn == '_next_char' else set())
         tok_raises += g
         tok_design += d
         tok_bad_raises += bad
+    for h in tok_helpers.values():            # helpers extracted from these functions: their raises count like the caller's
+        g, d, bad = _raise_census(h, {'self.error'}, set())
+        tok_raises += g
+        tok_bad_raises += bad
     tok_unguarded = [st for st in tok_sites if st['guard'] == 'none']
     pg, _pd, parse_bad_raises = _raise_census(parse, {'tokenizer.error', 'KeyValError'}, set())
+    for h in {h.name: h for h in census_p.helpers + census_f.helpers}.values():
+        g, _d, bad = _raise_census(h, {'tokenizer.error', 'KeyValError'}, set())
+        pg += g
+        parse_bad_raises += bad
+
+    et_ok, et_trace = _error_type_installed(parse)
+    rd_foreign, rd_pushes, rd_unread, rd_funcs = _reader_discipline(ttree)
 
     allsites = sites_f + sites_p
     lines = [
@@ -426,7 +640,14 @@ def translate() -> tuple[str, dict]:
         'Definition tok_foreign_raises : list N := [' + '; '.join(map(str, tok_bad_raises)) + '].',
         '(* Keyvalues.parse: lines of raise statements that raise neither tokenizer.error(...) nor KeyValError(...) *)',
         f'Definition kv_raises_typed : N := {pg}.',
+        '(* the tokenizer Keyvalues.parse iterates over has error_type = KeyValError on every path to the loop *)',
+        f'Definition kv_error_type_installed : bool := {_b(et_ok)}.',
         'Definition kv_foreign_raises : list N := [' + '; '.join(map(str, parse_bad_raises)) + '].',
+        '(* reader discipline of class Tokenizer outside __init__/_next_char: lines that touch _cur_chunk/_char_index/_chunk_iter other than',
+        '   by `self._char_index -= 1`; lines of these push-backs; push-backs with no self._next_char() since the previous one *)',
+        'Definition tok_chunk_state_foreign_accesses : list N := [' + '; '.join(map(str, rd_foreign)) + '].',
+        'Definition tok_pushback_sites : list N := [' + '; '.join(map(str, rd_pushes)) + '].',
+        'Definition tok_pushbacks_without_read : list N := [' + '; '.join(map(str, rd_unread)) + '].',
         '(* every .error(<literal>, args...) call: (line, positional fields the literal needs, arguments passed) *)',
         'Definition error_format_calls : list (N * N * N) := [' + '; '.join(f'({ln}, {need}, {na})' for _f, ln, need, na in ecalls) + '].',
         '',
@@ -438,6 +659,8 @@ def translate() -> tuple[str, dict]:
                 tokenizer_unguarded=[{k5: v5 for k5, v5 in st.items() if k5 != 'node'} for st in tok_unguarded],
                 tokenizer_raises=dict(through_error=tok_raises, by_design=tok_design, foreign_lines=tok_bad_raises),
                 parse_raises=dict(typed=pg, foreign_lines=parse_bad_raises),
+                error_type_installed=et_ok, error_type_trace=et_trace,
+                reader_discipline=dict(foreign_access_lines=rd_foreign, pushback_lines=rd_pushes, pushbacks_without_read=rd_unread, functions=rd_funcs),
                 error_calls=len(ecalls),
                 error_calls_bad=[f'{f}:{ln} needs {need} has {na}' for f, ln, need, na in ecalls if need > na])
     return '\n'.join(lines), side
